@@ -875,7 +875,8 @@ def formula_grammar(table):
         return formula
     grouped_mixture = grouped_mixture.setParseAction(convert_mixture)
 
-    mixture << (compound | grouped_mixture)
+    # Note: as for formula below, try the mixture before the compound.
+    mixture << (grouped_mixture | compound)
     # Note: try the mixtures before compound, otherwise the litre in "2L H2O@1"
     # is looked up as an element symbol and the lookup error ends the parse.
     formula = (ungrouped_mixture | compound | grouped_mixture)
